@@ -239,6 +239,7 @@ void profile_cfg_more(const std::string &prof, uint64_t seed, RunCfg &c, Rng &r)
     if (c.flags >= 0 && r.chance(0.3)) { c.flags |= ARES_FLAG_USEVC; c.tfo = r.chance(0.7); c.pending_write_cb = r.chance(0.6); if (r.chance(0.5)) c.flags |= ARES_FLAG_STAYOPEN; }
     // a share of scenarios puts 13..17 requests in flight at once: the library's hash tables (queries by id, connections by
     // socket, cache entries) grow at their 13th entry, and growing is a multi-allocation operation of its own
+    c.knobs["reverse_hosts_pct"] = 35;
     if (r.chance(0.08)) { c.knobs["c14_burst"] = 13 + (int64_t)r.below(5); c.use_tokens = 1; if (r.chance(0.5)) c.udp_max_queries = 1; }
   } else if (prof == "C07") {
     c.allow_cancel_in_cb = 0;
@@ -2343,7 +2344,11 @@ static void c14_end(Run &run) {
   if (g_alloc.failed) run.note("allocation_failure_delivered");
   if (!g_c14_ref.valid || g_c14_ref.seed != run.cfg.seed) return;
   // a request that reports success must have "proceeded correctly": same answer shape as without the failure
-  for (size_t i = 0; i < run.reqs.size() && i < g_c14_ref.per_req.size(); i++) {
+  // a configuration call of the scenario itself that reported the failure (servers not set, ...) legitimately changes what
+  // later requests see: the application was told, the comparison with the failure-free execution no longer applies
+  bool config_failed = run.probe.count("set_servers_failed") || run.probe.count("set_sortlist_failed") || run.probe.count("reinit_failed") || run.probe.count("init_failed");
+  if (config_failed) run.note("differential_skipped_config_call_failed");
+  for (size_t i = 0; !config_failed && i < run.reqs.size() && i < g_c14_ref.per_req.size(); i++) {
     const Req &r = run.reqs[i];
     if (!r.accepted || r.cb_count == 0 || r.status != ARES_SUCCESS) continue;
     if (g_c14_ref.per_req[i].compare(0, 7, "SUCCESS") != 0) continue;
